@@ -27,6 +27,10 @@ pub fn day_fraction_offsets(seed: u64) -> Vec<f64> {
             v.push(-(k + j / 86_400.0));
         }
     }
+    for n in [427_008_001.0f64, 500_000_001.0, 600_000_003.0, 700_000_005.0, 853_999_999.0, 427_008_003.0] {
+        v.push(n / 8192.0);
+        v.push(-n / 8192.0);
+    }
     v.push(100_000.000_057_870_38);
     v.push(200_000.000_034_722_2);
     v
